@@ -242,7 +242,9 @@ class Check:
         if cfg is None:
             cfg = module + ".cfg"
         w = str(workers if workers else int(os.environ.get("VERIF_TLC_WORKERS", min(16, os.cpu_count() or 4))))
-        cmd = ["java", "-XX:+UseG1GC", "-Xss256m", "-Xmx%s" % (heap or "8g")]
+        # TLC and SANY create tlc-<n> / SANY<n> directories in java.io.tmpdir and leave them behind: keep them in the
+        # run's own scratch directory, which is removed at the end
+        cmd = ["java", "-XX:+UseG1GC", "-Xss256m", "-Xmx%s" % (heap or "8g"), "-Djava.io.tmpdir=" + wd]
         cmd += ["-cp", TLA_CP, "tlc2.TLC", "-workers", w, "-metadir", os.path.join(wd, "meta"),
                 "-config", cfg, "-noGenerateSpecTE"]
         if deadlock is False:
